@@ -250,6 +250,23 @@ def exWorld : World :=
 
 example : FreshW exWorld := FreshW.ofB (by decide)
 
+/-- `cache_unobservable`: a coherent world and a sequence in scope that reads eleven properties, assigns,
+deletes and copies — among them `url` and `forms`, which are in pinned pairs: in scope as long as the keys of
+those pairs are not assigned while they are cached -/
+example : InvW {} exLib exWorld := (FreshW.ofB (by decide)).inv {} exLib
+example : Safe {} exLib exWorld [.read 0 .url, .read 0 .forms, .setStr 0 cs!"HTTP_COOKIE" cs!"z=9", .read 0 .cookies,
+    .copy 0, .read 1 .headers, .setInput 1 { st := ⟨"q=7".toUTF8.toList, [1]⟩ }, .read 1 .params, .del 0 cs!"X_CUSTOM",
+    .read 0 .remoteRoute, .read 1 .body, .read 0 .isJsonRequested] := by
+  refine ⟨by decide +kernel, by decide +kernel, by decide +kernel, by decide +kernel, by decide +kernel,
+    by decide +kernel, by decide +kernel, by decide +kernel, by decide +kernel, by decide +kernel, by decide +kernel,
+    by decide +kernel, trivial⟩
+/-- … and one out of scope: `QUERY_STRING` is assigned while `url` is cached -/
+example : ¬ Safe {} exLib exWorld [.read 0 .url, .setStr 0 kQS cs!"b=2"] := by
+  intro h
+  have := h.2.1
+  revert this
+  decide +kernel
+
 /-- `content_length_follows_header`: the sequence that showed the defect of d7edd9e, then a copy -/
 example : ∀ op ∈ [Op.read 0 .contentLength, .setStr 0 kCL cs!"3", .read 0 .contentLength, .copy 0,
     .del 1 kCL, .read 1 .contentLength, .read 0 .contentLength],
